@@ -17,7 +17,7 @@ import copy
 from .. import gen as G
 from ..clock import sec_to_us
 from ..drive import run_retry_scenario
-from ..facts import V, analyze, entry_name
+from ..facts import SLACK, V, analyze, entry_name
 from ..runner import chooser_for, digest
 from . import common
 
@@ -55,9 +55,9 @@ def oracle(scn, trace):
                 bad = None
                 if isinstance(d, str) or d != d:
                     bad = "non-finite sleep requested"
-                elif d < 0:
+                elif d < -SLACK:
                     bad = "negative sleep requested"
-                elif d > rem_us / 10**6:
+                elif d > rem_us / 10**6 + SLACK:
                     bad = "sleep longer than the time remaining"
                 if bad:
                     out.append(V("R2", bad, {"call": cid, "attempt": a.k, "delay": d, "elapsed_us": el, "deadline_us": D, "entry": ent}))
